@@ -143,6 +143,11 @@ def check_combinators(fx, rep, rule):
     b_ = ("in", "bytes")
     ok_all = True
 
+    def EE(v):
+        # what a private parser puts *into* its Err is not observable: the dispatcher answers every failure with its own error (line
+        # cut by split_line, fixed kind) - pinned by the dispatch rule, which would see a propagated payload as a different outcome
+        return ("adt", "Result", "Err", (("0", ("any-error",)),)) if (isinstance(v, tuple) and v[:3] == ("adt", "Result", "Err")) else v
+
     def cmp(name, ref, what, params=None, opaque=opq, outcome=None):
         nonlocal ok_all
         p = A.one(rep, rule, "mapping::" + name, A.func(fx, "mapping", name))
@@ -153,7 +158,8 @@ def check_combinators(fx, rep, rule):
         if res is None:
             ok_all = False
             return None
-        bad, n = fc.compare_paths(res, ref, outcome or (lambda st, out: out[1]))
+        oc_ = outcome or (lambda st, out: out[1])
+        bad, n = fc.compare_paths(res, lambda o: EE(ref(o)), lambda st, out: EE(oc_(st, out)))
         R1.report_cmp(rep, rule, "%s/%s" % (rule, name), fx.bodies[p], res, bad, what)
         ok_all = ok_all and not bad
         return sy, res
@@ -214,7 +220,7 @@ def check_combinators(fx, rep, rule):
             if len(clos) == 1:
                 clo = list(clos)[0]
                 pos2 = call("std::iter::Iterator::position", call("core::slice::iter", b_), clo)
-                bad, n = fc.compare_paths(res, lambda o: ref_until(o, pos2, True), lambda st, out: out[1])
+                bad, n = fc.compare_paths(res, lambda o: EE(ref_until(o, pos2, True)), lambda st, out: EE(out[1]))
                 R1.report_cmp(rep, rule, "%s/parse_usize" % rule, fx.bodies[pu[0]], res, bad,
                               "digit run = maximal prefix under the digit predicate, then from_utf8 and str::parse::<usize>, both failures -> Err; rest is the suffix")
                 t = M.closure_term(sy, clo, 1, S.St(), {"sp": "?"})
@@ -302,7 +308,7 @@ def check_combinators(fx, rep, rule):
                     if (not o(("empty", rest))) and o(("bool", call(rp("is_newline"), ("index", rest, lit_int(0))))):
                         return perr(call("core::str::as_bytes", sl), ERRK)
                     return ok(("tuple", (sl, rest)))
-                bad, n = fc.compare_paths(res, refn, lambda st, out: out[1])
+                bad, n = fc.compare_paths(res, lambda o: EE(refn(o)), lambda st, out: EE(out[1]))
                 r = byteset(fx, sy, clo)
                 good = not bad and r is not None and r[0] == NL and len(r[1]) == 1
                 R1.report_cmp(rep, rule, "%s/parse_until_no_newline" % rule, fx.bodies[pn[0]], res, bad,
